@@ -8,8 +8,13 @@ from typing import Any, Dict, List
 CALLS: List[tuple] = []
 
 
+EXTRA = ["setup", "done", "set", "up", "step_done", "other"]
+
+
 def _meta(cfg):
     meta: Dict[str, Any] = {"models": {"M": {"public": True, "params": [], "attrs": ["a", "b"]}}}
+    if cfg.get("extra_methods"):
+        meta["extra_methods"] = list(EXTRA)
     if cfg.get("version") is not None:
         meta["api_version"] = cfg["version"]
     if cfg.get("type") is not None:
@@ -35,6 +40,17 @@ class _Base:
 
     def finalize(self):
         CALLS.append((self.sid, "finalize", (), {}))
+
+    def _extra(self, name, *a):
+        CALLS.append((self.sid, "extra:" + name, tuple(a), {}))
+        return f"{name}:{self.sid}"
+
+    def setup(self, *a): return self._extra("setup", *a)            # noqa: E704
+    def done(self, *a): return self._extra("done", *a)              # noqa: E704
+    def set(self, *a): return self._extra("set", *a)                # noqa: E704
+    def up(self, *a): return self._extra("up", *a)                  # noqa: E704
+    def step_done(self, *a): return self._extra("step_done", *a)    # noqa: E704
+    def other(self, *a): return self._extra("other", *a)            # noqa: E704
 
     def _step(self, time, inputs):
         self.n += 1
@@ -94,3 +110,17 @@ class V2SigStrict(V2Sig):
 class V1Sig(V2Sig):
     """v1: no setup_done at all."""
     setup_done = None  # type: ignore[assignment]
+
+
+class HierSim(V3Sig):
+    """create() returns a Parent entity with one child of model Child (different attributes)."""
+
+    def init(self, sid, time_resolution=None, **kw):
+        self.sid = sid
+        self.meta = {"api_version": "3.0", "type": "hybrid", "models": {
+            "Parent": {"public": True, "params": [], "attrs": ["p_in", "p_out"], "trigger": ["p_in"], "non-persistent": ["p_out"]},
+            "Child": {"public": False, "params": [], "attrs": ["c_in", "c_out"], "trigger": ["c_in"], "non-persistent": ["c_out"]}}}
+        return self.meta
+
+    def create(self, num, model, **params):
+        return [{"eid": f"p{i}", "type": "Parent", "children": [{"eid": f"p{i}c", "type": "Child"}]} for i in range(num)]
